@@ -8,7 +8,7 @@
  *   INIT_REAL  : the real flow_<M>_init() is executed for stream 0, then 1, ...  (modules with a
  *                single barrier after the stream-0 allocation: ap gd ip rnd spq ll llp lhq); the
  *                barrier is a counting no-op;
- *   INIT_WIRED : lfq / ltq / pbq synchronise twice inside flow_init and every stream reads what
+ *   INIT_WIRED : lfq / pbq (and ltq, which is not within reach: see spec.py OUTSIDE) synchronise twice inside flow_init and every stream reads what
  *                the others built between the barriers: the harness builds the same objects with
  *                the same helper calls (PARSEC_OBJ_NEW(parsec_dequeue_t), parsec_hbbuffer_new(..,
  *                parsec_mca_sched_push_in_system_queue_wrapper, sched_obj), neighbour order
@@ -281,7 +281,10 @@ int main(void)
 #else
 #define TWO_SUBMITTERS (e1 != e2)
 #endif
-#if defined(WIT_FAR)
+#if N1 == 1
+    /* shape (1,N2): the second ring arrives on a queue that still holds the first task */
+    if (cross_stream_seen + far_seen > 0 && s1 == 0 && e1 == e2 && d1 == 0 && d2 == 0) VWITNESS("ring scheduled onto the non-empty queue of the same stream");
+#elif defined(WIT_FAR)
     if (far_seen > 0 && s1 >= 1 && TWO_SUBMITTERS) VWITNESS("a task came back with distance>0 (neighbour/system queue), two submitting streams");
 #elif NES >= 2
     if (cross_stream_seen > 0 && s1 >= 1 && s1 < N1 && TWO_SUBMITTERS) VWITNESS("task returned on another stream than the one it was scheduled on; interleaved selects");
